@@ -11,6 +11,22 @@ def call_is(t, name):
     return t is not None and t[0] == 'call' and t[1] == ('ext', name)
 
 
+def is_nan_test_of(c, price):
+    """c is isnan(price), or isnan(x / price): a quotient by a NaN price is NaN, so excluding the one excludes the other"""
+    if not call_is(c, 'ISNAN') or len(c[2]) != 1:
+        return False
+    t = c[2][0]
+    if t == price:
+        return True
+    try:
+        r = T.rat(t)
+    except Exception:
+        return False
+    in_den = any(a == price for m in r.d for a, _ in m)
+    in_num = any(s == price for m in r.n for a, _ in m for s in T.subterms(a))
+    return in_den and not in_num
+
+
 def loop_asset_weight(lp):
     """(asset term, weight term, weights container) of a sizing loop: `for a, w in sorted(W.items())` or `for a in sorted(W): w = W[a]`."""
     it = lp.iter
@@ -62,6 +78,28 @@ def ctor_guard_table(ctx, rule, cname, field, param, cases, what, keyprefix):
                     'outcomes %s%s' % (sorted(outs), (' (depends on %s)' % sorted(set(v.unknown))[:2]) if v.unknown else ''), key='%s|%s' % (keyprefix, val_))
 
 
+def require_fresh_target(ctx, rule, s, cname, key):
+    """a sizer that fills a dict held on the instance must empty it first: entries of an earlier call are no part of this call's target"""
+    if s.get('container') is not None:
+        ctx.require(s['fresh'], rule, '%s starts each call from an empty target (%s is reset before the sizing loop)' % (cname, fmt(s['container'])), s['loop'].site,
+                    'entries written by earlier calls stay in the target returned', key=key)
+
+
+def _rename_ev(e, ren):
+    from ..symex import Ev
+    d = {}
+    for k, v in e.d.items():
+        if k == 'node':
+            d[k] = v
+        elif isinstance(v, tuple) and v and isinstance(v[0], str):
+            d[k] = ren(v)
+        elif isinstance(v, dict):
+            d[k] = {kk: (ren(vv) if isinstance(vv, tuple) and vv and isinstance(vv[0], str) else vv) for kk, vv in v.items()}
+        else:
+            d[k] = v
+    return Ev(e.kind, **d)
+
+
 def sizing_paths(ctx, cname):
     """-> all paths, and for every normal path that sizes: dict(path, loop, bodies[dict(path, quantity, fee, price, writes)])"""
     qn = cname + '.__call__'
@@ -70,18 +108,48 @@ def sizing_paths(ctx, cname):
     for p in ps:
         loops = [e for e in p.events if e.kind == 'loop' and not e.d.get('partial')]
         # the sizing loop is the one that consults the fee model
-        loops = [l for l in loops if any(e.kind == 'call' and any(c.endswith('.calc_total_cost') for c in e.callee) for b in l.paths for e in b.flat_events())]
+        has = lambda l, test: any(e.kind == 'call' and any(test(c) for c in e.callee) for b in l.paths for e in b.flat_events())
+        is_fee = lambda c: c.endswith('.calc_total_cost')
+        is_price = lambda c: c.startswith('BacktestDataHandler.get_asset_latest_')
+        all_loops = loops
+        loops = [l for l in all_loops if has(l, is_fee)]
         if p.outcome != 'return' or len(loops) != 1:
             continue
         lp = loops[0]
+        carried_fee = None
+        if not has(lp, is_price):
+            # two-phase sizing: a first loop estimates the fee of every asset and collects the results, a second loop over those results (fused by the
+            # engine into a loop over the same source) prices and sizes them.  The first loop must be a pure builder: one path, no test, no exit.
+            second = [l for l in all_loops if l is not lp and has(l, is_price) and l.iter == lp.iter and all_loops.index(l) > all_loops.index(lp)]
+            if len(second) == 1 and len(lp.paths) == 1 and lp.paths[0].outcome == 'fall' and not lp.paths[0].conds:
+                l1, lp = lp, second[0]
+                ren = lambda t, a=l1.id, b=lp.id: T.replace(t, lambda z: ('elem', z[1], b) if (z[0] == 'elem' and z[-1] == a) else None)
+                carried_fee = [_rename_ev(e, ren) for e in l1.paths[0].flat_events() if e.kind == 'call' and any(is_fee(c) for c in e.callee)]
         bodies = []
+        container = None
         for b in lp.paths:
             fee = [e for e in b.flat_events() if e.kind == 'call' and any(c.endswith('.calc_total_cost') for c in e.callee)]
+            if carried_fee is not None:
+                fee = carried_fee + fee
             price = [e for e in b.flat_events() if e.kind == 'call' and any(c.startswith('BacktestDataHandler.get_asset_latest_') for c in e.callee)]
             ws = [w for w in b.flat_events() if w.kind == 'write' and w.d.get('local') and w.loc[0] == 'sub' and w.loc[1][0] == 'var']
+            if not ws:
+                # the target is kept on the instance: self.<field>[asset] = {...}
+                ws = [w for w in b.flat_events() if w.kind == 'write' and not w.d.get('local') and w.how == 'assign' and w.loc[0] == 'sub' and w.loc[1][0] == 'attr' and w.loc[1][1] == V('self')]
+                if ws:
+                    container = ws[0].loc[1]
             q = None
             if len(ws) == 1 and ws[0].value[0] == 'dict':
                 q = dict(ws[0].value[1]).get(('str', 'quantity'))
             bodies.append({'path': b, 'quantity': q, 'fee': fee, 'price': price, 'writes': ws})
-        out.append({'path': p, 'loop': lp, 'bodies': bodies})
+        fresh = None
+        if container is not None:
+            # a target kept on the instance must start empty in every call: the last write of the field before the loop is an empty dict
+            fresh = False
+            for e in p.events:
+                if e is lp:
+                    break
+                if e.kind == 'write' and e.loc == container:
+                    fresh = e.value == ('dict', ())
+        out.append({'path': p, 'loop': lp, 'bodies': bodies, 'container': container, 'fresh': fresh})
     return ps, out
